@@ -519,6 +519,25 @@ def w_classstate( ctx ):
                     res.ok( src, st, 'class %s: %s is a class-level table that instances only read' % ( cd.name, name ))
     if n < 3:
         raise AnalysisError( 'W-CLASSSTATE: classes not found' )
+    # ... and what one RUN of a command-line entry point was told ( -S, --route-path ... ) stays with that run: main() never stores into an
+    # attribute of a CLASS ( connector_cls.route_path_default = False with connector_cls = connector ): every later connection made in the
+    # same process would inherit the option - a client asked to use the default route path silently drops it
+    for rel in ( 'server/enip/client.py', 'server/enip/get_attribute.py', 'server/enip/poll.py' ):
+        if not ctx.model.exists( rel ):
+            continue
+        src = ctx.src( rel )
+        classes = { c.name for c in src.tree.body if isinstance( c, ast.ClassDef ) }
+        for fn_ in [ f for f in src.tree.body if isinstance( f, ast.FunctionDef ) and f.name == 'main' ]:
+            bound = { t.id for a in ast.walk( fn_ ) if isinstance( a, ast.Assign ) and isinstance( a.value, ( ast.Name, ast.Attribute )) and ( dotted( a.value ) or '' ).split( '.' )[-1] in classes
+                      for t in a.targets if isinstance( t, ast.Name ) }
+            stores = [ a for a in ast.walk( fn_ ) if isinstance( a, ( ast.Assign, ast.AugAssign )) for t in ( a.targets if isinstance( a, ast.Assign ) else [ a.target ] )
+                       if isinstance( t, ast.Attribute ) and isinstance( t.value, ast.Name ) and ( t.value.id in classes or t.value.id in bound ) ]
+            n += 1
+            if stores:
+                res.bad( src, stores[0], '%s main() stores an option of this run on a class ( %s )' % ( rel, norm_text( stores[0] )[:70] ),
+                         'the class attribute outlives the run: every connector created later in the same process carries the option - a later client that wants the default route path 1/0 sends none, and a device configured with another route path serves it' )
+            else:
+                res.ok( src, fn_, '%s main(): the options of a run are handed to the instance and the operations, never stored on a class' % rel )
     return res
 
 
